@@ -19,6 +19,9 @@ theorem blh2xyz_real (e : Ellipsoid ℝ) (b l h : ℝ) :
 theorem halfPi_real : (halfPi : ℝ) = π / 2 := by
   unfold halfPi; simp
 
+theorem negHalfPi_real : (negHalfPi : ℝ) = -(π / 2) := by
+  unfold negHalfPi; simp [neg_div]
+
 theorem axisDist_real (x y : ℝ) : axisDist x y =
     if |y| < |x| then some (|x| * Real.sqrt (1 + |y| / |x| * (|y| / |x|)))
     else if |y| ≠ 0 then some (|y| * Real.sqrt (1 + |x| / |y| * (|x| / |y|))) else none := by
@@ -191,7 +194,7 @@ theorem xyz2blh_axis (c : Bool) (e : Ellipsoid ℝ) (z : ℝ) :
       if 0 < z then (π / 2, 0, z - e.Ime2 * e.N (π / 2)) else (-(π / 2), 0, -z - e.Ime2 * e.N (-(π / 2))) := by
   unfold xyz2blhWith
   rw [axisDist_zero]
-  simp only [halfPi_real]
+  simp only [halfPi_real, negHalfPi_real]
 
 theorem xyz2blh_off_axis (c : Bool) (e : Ellipsoid ℝ) {x y : ℝ} (z : ℝ) (h : x ≠ 0 ∨ y ≠ 0) :
     xyz2blhWith c e x y z =
